@@ -82,6 +82,7 @@ func (r *defaultSingletonComponentRegistry) GetSingletonOrCreateByFactory(name s
 	r.logger().Tracef("create instance of singleton '%s'", name)
 	singleton, err := factory.GetComponent()
 	if err != nil {
+		r.RemoveSingleton(name)
 		return nil, err
 	}
 	r.logger().Tracef("singleton '%s' finished creating", name)
